@@ -20,8 +20,10 @@
      C06_wrongtype, C06_wrongtype_exact, C06_set_get_wrongtype
                              typed commands reply WRONGTYPE (or an argument error that does not
                              depend on the db) on a key of another type, and change nothing
-   No command of the table had to be excluded from theorems 1 and 2.                          *)
-From RE Require Import Base Resp State Exec Exec2 Bits Dispatch Lemmas.
+     C06_wrongtype_multi, C06_wrongtype_multi_exact
+                             the same for [accepts], which also classifies SORT (list or set)
+   No command of the table had to be excluded from theorems 1 and 2 (LCS and SORT included).   *)
+From RE Require Import Base Resp State Exec Exec2 Bits Lcs Sort Fnum Dispatch Lemmas.
 From Coq Require Import String List ZArith NArith Lia Bool.
 Import ListNotations.
 Open Scope string_scope.
@@ -134,6 +136,10 @@ Definition expects (name : bytes) : option vtype :=
   if is "bitop" then None else
   if is "bitfield" then Some TStr else
   if is "bitfield_ro" then Some TStr else
+  if is "lcs" then Some TStr else
+  if is "sort" then None else
+  if is "incrbyfloat" then Some TStr else
+  if is "hincrbyfloat" then Some THash else
   None.
 
 Definition table : list (cmd * option vtype) :=
@@ -232,7 +238,11 @@ Definition table : list (cmd * option vtype) :=
     (cmd_bitpos, Some TStr);
     (cmd_bitop, None);
     ((cmd_bitfield false), Some TStr);
-    ((cmd_bitfield true), Some TStr) ].
+    ((cmd_bitfield true), Some TStr);
+    (cmd_lcs, Some TStr);
+    (cmd_sort, None);
+    (cmd_incrbyfloat, Some TStr);
+    (cmd_hincrbyfloat, Some THash) ].
 
 (* One traversal of the [if]-chain of [data_cmd], reused by every table theorem. *)
 Lemma table_sound (P : cmd -> option vtype -> Prop) :
@@ -467,6 +477,14 @@ Lemma cmd_bitop_inert : inert cmd_bitop.
 Proof. apply inert_of_res. unfold cmd_bitop. inert_cmd. Qed.
 Lemma cmd_bitfield_inert ro : inert (cmd_bitfield ro).
 Proof. apply inert_of_res. unfold cmd_bitfield. inert_cmd. Qed.
+Lemma cmd_lcs_inert : inert cmd_lcs.
+Proof. apply inert_of_res. unfold cmd_lcs. inert_cmd. Qed.
+Lemma cmd_sort_inert : inert cmd_sort.
+Proof. apply inert_of_res. unfold cmd_sort. inert_cmd. Qed.
+Lemma cmd_incrbyfloat_inert : inert cmd_incrbyfloat.
+Proof. apply inert_of_res. unfold cmd_incrbyfloat. inert_cmd. Qed.
+Lemma cmd_hincrbyfloat_inert : inert cmd_hincrbyfloat.
+Proof. apply inert_of_res. unfold cmd_hincrbyfloat. inert_cmd. Qed.
 
 
 Lemma table_inert : Forall (fun x : cmd * option vtype => inert (fst x)) table.
@@ -568,6 +586,10 @@ Proof.
   apply Forall_cons. exact (cmd_bitop_inert).
   apply Forall_cons. exact (cmd_bitfield_inert false).
   apply Forall_cons. exact (cmd_bitfield_inert true).
+  apply Forall_cons. exact (cmd_lcs_inert).
+  apply Forall_cons. exact (cmd_sort_inert).
+  apply Forall_cons. exact (cmd_incrbyfloat_inert).
+  apply Forall_cons. exact (cmd_hincrbyfloat_inert).
   apply Forall_nil.
 Qed.
 
@@ -1113,6 +1135,12 @@ Lemma cmd_bitop_wf : wfp cmd_bitop.
 Proof. intros now d args Hd. unfold cmd_bitop. wf_cmd. Qed.
 Lemma cmd_bitfield_wf ro : wfp (cmd_bitfield ro).
 Proof. intros now d args Hd. unfold cmd_bitfield. wf_cmd. Qed.
+Lemma cmd_lcs_wf : wfp cmd_lcs.
+Proof. intros now d args Hd. unfold cmd_lcs. wf_cmd. Qed.
+Lemma cmd_sort_wf : wfp cmd_sort.
+Proof. intros now d args Hd. unfold cmd_sort. wf_cmd. Qed.
+Lemma cmd_incrbyfloat_wf : wfp cmd_incrbyfloat.
+Proof. intros now d args Hd. unfold cmd_incrbyfloat. wf_cmd. Qed.
 
 (* --- hash and set writers: the representation invariant needs the helper lemmas --- *)
 Lemma cmd_hset_wf m : wfp (cmd_hset m).
@@ -1157,6 +1185,22 @@ Proof.
   destruct (aget h0 f) as [old|].
   - destruct (strict_i64 old) as [v|]; [|exact Hd].
     destruct (in_i64 (v + delta)); [|exact Hd]. cbn [fst].
+    apply wf_put_hash; [exact Hd | apply (NoDup_akeys_aset h0); exact Hn].
+  - cbn [fst]. apply wf_put_hash; [exact Hd | apply (NoDup_akeys_aset h0); exact Hn].
+Qed.
+
+Lemma cmd_hincrbyfloat_wf : wfp cmd_hincrbyfloat.
+Proof.
+  intros now d args Hd. unfold cmd_hincrbyfloat.
+  destruct args as [|k [|f [|n [|? ?]]]]; try exact Hd.
+  destruct (parse_score n) as [delta|]; [|exact Hd].
+  destruct (get_hash now d k) as [cur|] eqn:E; [|exact Hd].
+  assert (Hn : NoDup (map fst (fst match cur with Some (h, e) => (h, e) | None => ([], None) end))).
+  { destruct cur as [[h e]|]; cbn [fst]; [apply (get_hash_wf now d k h e Hd E) | constructor]. }
+  destruct (match cur with Some (h, e) => (h, e) | None => ([], None) end) as [h0 exp].
+  cbn [fst] in Hn.
+  destruct (aget h0 f) as [old|].
+  - destruct (parse_score old) as [v|]; [|exact Hd]. cbn [fst].
     apply wf_put_hash; [exact Hd | apply (NoDup_akeys_aset h0); exact Hn].
   - cbn [fst]. apply wf_put_hash; [exact Hd | apply (NoDup_akeys_aset h0); exact Hn].
 Qed.
@@ -1319,6 +1363,10 @@ Proof.
   apply Forall_cons. exact (cmd_bitop_wf).
   apply Forall_cons. exact (cmd_bitfield_wf false).
   apply Forall_cons. exact (cmd_bitfield_wf true).
+  apply Forall_cons. exact (cmd_lcs_wf).
+  apply Forall_cons. exact (cmd_sort_wf).
+  apply Forall_cons. exact (cmd_incrbyfloat_wf).
+  apply Forall_cons. exact (cmd_hincrbyfloat_wf).
   apply Forall_nil.
 Qed.
 
@@ -2028,6 +2076,19 @@ Proof.
   - cbn [snd]. destruct (parse_bf_err _ _ _ E) as [s ->]. eexists; reflexivity.
 Qed.
 
+(* LCS: both operands must be strings; [expects] speaks about the first one *)
+Lemma lcs_operand_wrong now d k e : lookup now d k = Some e -> type_of (e_val e) <> TStr ->
+  lcs_operand now d k = None.
+Proof. intros H Ht. unfold lcs_operand. rewrite H. exact (str_of_wrong e Ht). Qed.
+Lemma cmd_lcs_wt : wt TStr cmd_lcs.
+Proof.
+  wt_str. pose proof (lcs_operand_wrong now d k e Hl Ht) as Hlo. unfold cmd_lcs. wt_cmd.
+Qed.
+Lemma cmd_incrbyfloat_wt : wt TStr cmd_incrbyfloat.
+Proof. wt_str. unfold cmd_incrbyfloat. wt_cmd. Qed.
+Lemma cmd_hincrbyfloat_wt : wt THash cmd_hincrbyfloat.
+Proof. wt_hash. unfold cmd_hincrbyfloat. wt_cmd. Qed.
+
 Lemma table_wt : Forall (fun x : cmd * option vtype => wt_opt (fst x) (snd x)) table.
 Proof.
   unfold table.
@@ -2127,6 +2188,10 @@ Proof.
   apply Forall_cons. exact I.
   apply Forall_cons. exact (cmd_bitfield_wt false).
   apply Forall_cons. exact (cmd_bitfield_wt true).
+  apply Forall_cons. exact (cmd_lcs_wt).
+  apply Forall_cons. exact I.
+  apply Forall_cons. exact (cmd_incrbyfloat_wt).
+  apply Forall_cons. exact (cmd_hincrbyfloat_wt).
   apply Forall_nil.
 Qed.
 
@@ -2140,7 +2205,11 @@ Qed.
    - SETNX, MSETNX, MGET, the keyspace/expiry commands (DEL, EXISTS, TYPE, RENAME, COPY, EXPIRE,
      TTL, ...): they accept every type by design;
    - LMPOP, SINTERCARD (first argument is numkeys), BITOP (operation name),
-     S*STORE (first argument is the destination, which is overwritten). *)
+     S*STORE (first argument is the destination, which is overwritten);
+   - SORT: its source may be a list OR a set, which [expects] cannot say; it is covered by the
+     general classification [accepts] and C06_wrongtype_multi / _multi_exact below.
+   LCS ([Some TStr]: the first operand; the second is checked the same way, see the example),
+   INCRBYFLOAT ([Some TStr]) and HINCRBYFLOAT ([Some THash]) are covered here. *)
 Theorem C06_wrongtype : forall name f t now d k e rest,
   data_cmd name = Some f -> expects name = Some t ->
   lookup now d k = Some e -> type_of (e_val e) <> t ->
@@ -2298,6 +2367,15 @@ Proof.
   rewrite (setop_operands_wrong o now d k rest Hgs). reflexivity.
 Qed.
 
+Lemma cmd_lcs_wtx : wtx TStr cmd_lcs.
+Proof.
+  wt_str. pose proof (lcs_operand_wrong now d k e Hl Ht) as Hlo. unfold cmd_lcs. wtx_cmd.
+Qed.
+Lemma cmd_incrbyfloat_wtx : wtx TStr cmd_incrbyfloat.
+Proof. wt_str. unfold cmd_incrbyfloat. wtx_cmd. Qed.
+Lemma cmd_hincrbyfloat_wtx : wtx THash cmd_hincrbyfloat.
+Proof. wt_hash. unfold cmd_hincrbyfloat. wtx_cmd. Qed.
+
 Lemma table_wtx : Forall (fun x : cmd * option vtype => wtx_opt (fst x) (snd x)) table.
 Proof.
   unfold table.
@@ -2397,6 +2475,10 @@ Proof.
   apply Forall_cons. exact I.
   apply Forall_cons. exact (cmd_bitfield_wtx false).
   apply Forall_cons. exact (cmd_bitfield_wtx true).
+  apply Forall_cons. exact (cmd_lcs_wtx).
+  apply Forall_cons. exact I.
+  apply Forall_cons. exact (cmd_incrbyfloat_wtx).
+  apply Forall_cons. exact (cmd_hincrbyfloat_wtx).
   apply Forall_nil.
 Qed.
 
@@ -2415,6 +2497,94 @@ Proof.
   - split; [right; exists s; exact Hs|]. exact (C06_failed_inert name f now d (k :: rest) s Hf (Hs d)).
 Qed.
 Print Assumptions C06_wrongtype_exact.
+
+(* ---- commands that accept more than one type: SORT (list or set) ---- *)
+(* [expects] names ONE required type, which cannot describe SORT: its source key may be a list
+   or a set, and a string or hash source is refused.  [accepts] is the general classification:
+   the set of types a command accepts for the key given as its first argument.  It agrees with
+   [expects] on every single-type command and adds the entry for "sort". *)
+Definition accepts (name : bytes) : option (list vtype) :=
+  match expects name with
+  | Some t => Some [t]
+  | None => if bytes_eqb name (s2b "sort") then Some [TList; TSet] else None
+  end.
+
+Lemma sort_source_wrong now d k e : lookup now d k = Some e ->
+  ~ In (type_of (e_val e)) [TList; TSet] -> sort_source now d k = SrcWrong.
+Proof.
+  intros H Ht. unfold sort_source. rewrite H.
+  destruct (e_val e); cbn [type_of In] in Ht; try reflexivity; exfalso; apply Ht; auto.
+Qed.
+
+Lemma cmd_sort_wtx : forall now d k e rest, lookup now d k = Some e ->
+  ~ In (type_of (e_val e)) [TList; TSet] ->
+  snd (cmd_sort now d (k :: rest)) = wrongtype \/
+  (exists s, forall d', snd (cmd_sort now d' (k :: rest)) = RErr s).
+Proof.
+  intros now d k e rest Hl Ht. unfold cmd_sort.
+  destruct (scan_sort rest st0) as [o| |].
+  - left. cbv zeta. rewrite (sort_source_wrong now d k e Hl Ht). reflexivity.
+  - right. eexists. intro d'. reflexivity.
+  - right. eexists. intro d'. reflexivity.
+Qed.
+
+(* by conversion (lazy): [vm_compute] would normalise the body of [cmd_sort] *)
+Lemma data_cmd_sort : data_cmd (s2b "sort") = Some cmd_sort.
+Proof. reflexivity. Qed.
+
+(* THEOREM 4 for every typed command of the table, SORT included: a visible first key whose type
+   is not one of the accepted ones gives WRONGTYPE (or an error of the argument list that does
+   not depend on the db), and nothing changes.  For [accepts name = Some [t]] this is exactly
+   C06_wrongtype_exact. *)
+Theorem C06_wrongtype_multi_exact : forall name f ts now d k e rest,
+  data_cmd name = Some f -> accepts name = Some ts ->
+  lookup now d k = Some e -> ~ In (type_of (e_val e)) ts ->
+  (snd (f now d (k :: rest)) = wrongtype \/
+   (exists s, forall d', snd (f now d' (k :: rest)) = RErr s)) /\
+  fst (f now d (k :: rest)) = d.
+Proof.
+  intros name f ts now d k e rest Hf Ha Hl Ht. unfold accepts in Ha.
+  destruct (expects name) as [t|] eqn:Hex.
+  - injection Ha as <-. apply (C06_wrongtype_exact name f t now d k e rest Hf Hex Hl).
+    intro Heq. apply Ht. left. symmetry. exact Heq.
+  - destruct (bytes_eqb name (s2b "sort")) eqn:Hn; [|discriminate Ha]. injection Ha as <-.
+    apply bytes_eqb_eq in Hn. subst name. rewrite data_cmd_sort in Hf. injection Hf as <-.
+    destruct (cmd_sort_wtx now d k e rest Hl Ht) as [Hs|[s Hs]].
+    + split; [left; exact Hs|].
+      exact (C06_failed_inert _ _ now d (k :: rest) _ data_cmd_sort Hs).
+    + split; [right; exists s; exact Hs|].
+      exact (C06_failed_inert _ _ now d (k :: rest) s data_cmd_sort (Hs d)).
+Qed.
+Print Assumptions C06_wrongtype_multi_exact.
+
+Theorem C06_wrongtype_multi : forall name f ts now d k e rest,
+  data_cmd name = Some f -> accepts name = Some ts ->
+  lookup now d k = Some e -> ~ In (type_of (e_val e)) ts ->
+  (exists s, snd (f now d (k :: rest)) = RErr s) /\ fst (f now d (k :: rest)) = d.
+Proof.
+  intros name f ts now d k e rest Hf Ha Hl Ht.
+  destruct (C06_wrongtype_multi_exact name f ts now d k e rest Hf Ha Hl Ht) as [[Hs|[s Hs]] Hd].
+  - split; [|exact Hd]. eexists. exact Hs.
+  - split; [|exact Hd]. exists s. exact (Hs d).
+Qed.
+Print Assumptions C06_wrongtype_multi.
+
+(* SORT on a string and on a hash: WRONGTYPE, same db; on a list and on a set it answers;
+   LCS on a list operand (first or second): WRONGTYPE *)
+Example C06_wrongtype_sort_lcs_ex :
+  let d := run_cmds 0 empty_db
+    [ (s2b "rpush", [s2b "l"; s2b "3"; s2b "1"; s2b "2"]); (s2b "set", [s2b "s"; s2b "v"]);
+      (s2b "hset", [s2b "h"; s2b "f"; s2b "v"]); (s2b "sadd", [s2b "t"; s2b "7"]) ] in
+  accepts (s2b "sort") = Some [TList; TSet] /\ accepts (s2b "lcs") = Some [TStr] /\
+  accepts (s2b "hget") = Some [THash] /\ accepts (s2b "set") = None /\
+  cmd_sort 1 d [s2b "s"] = (d, wrongtype) /\
+  cmd_sort 1 d [s2b "h"; s2b "STORE"; s2b "x"] = (d, wrongtype) /\
+  cmd_sort 1 d [s2b "l"] = (d, RArr [RBulk (s2b "1"); RBulk (s2b "2"); RBulk (s2b "3")]) /\
+  cmd_sort 1 d [s2b "t"] = (d, RArr [RBulk (s2b "7")]) /\
+  cmd_lcs 1 d [s2b "l"; s2b "s"] = (d, wrongtype) /\
+  cmd_lcs 1 d [s2b "s"; s2b "l"] = (d, wrongtype) /\
+  cmd_lcs 1 d [s2b "s"; s2b "s"] = (d, RBulk (s2b "v")).
+Proof. vm_compute. repeat split; reflexivity. Qed.
 
 (* SET ... GET is the typed form of SET: on a non-string key it fails with WRONGTYPE and,
    by Theorem 1, writes nothing; plain SET is the one overwrite allowed. *)
